@@ -31,6 +31,20 @@ pub struct MScriptFile {
     exports: ExportMap,
 }
 
+/// Modules are known by the spelling of their path, with `/` between the parts. On Windows `\\` separates
+/// parts too and is folded into `/`; elsewhere it is an ordinary character of a file name and stays.
+#[cfg(windows)]
+pub fn spelled_with_slashes(path: String) -> String {
+    path.replace('\\', "/")
+}
+
+/// Modules are known by the spelling of their path, with `/` between the parts. On Windows `\\` separates
+/// parts too and is folded into `/`; elsewhere it is an ordinary character of a file name and stays.
+#[cfg(not(windows))]
+pub fn spelled_with_slashes(path: String) -> String {
+    path
+}
+
 #[derive(Debug)]
 pub struct MScriptFileBuilder {
     building: Rc<MScriptFile>,
@@ -40,7 +54,7 @@ impl MScriptFileBuilder {
     pub fn new(path_to_file: String) -> Self {
         Self {
             building: Rc::new(MScriptFile {
-                path: Rc::new(path_to_file.replace('\\', "/")),
+                path: Rc::new(spelled_with_slashes(path_to_file)),
                 functions: RefCell::new(Some(Functions::new_empty())),
                 exports: Gc::new(GcCell::new(VariableMapping::default())),
             }),
